@@ -411,6 +411,14 @@ def check_container(case) -> Result:
                                                                                         internal_mods=internal_mods, labile_mods=labile_mods))
         probe('create_annotation(Mod objects)', {'cterm_mods': [Mod(v, 1) for v in vals], 'intervals': [(1, 3, False, list(vals))]},
               lambda cterm_mods, intervals: pt.create_annotation('PEPTIDE', cterm_mods=cterm_mods, intervals=intervals))
+        probe('create_annotation(Mod objects, other slots)',
+              {'nterm_mods': [Mod(v, 1) for v in vals], 'unknown_mods': [Mod(v, 1) for v in vals], 'labile_mods': [Mod(v, 2) for v in vals],
+               'internal_mods': {0: [Mod(v, 1) for v in vals]}, 'isotope_mods': [Mod('13C', 1)], 'static_mods': [Mod('[1]@P', 1)],
+               'charge_adducts': [Mod('+H+', 1)]},
+              lambda nterm_mods, unknown_mods, labile_mods, internal_mods, isotope_mods, static_mods, charge_adducts:
+              pt.create_annotation('PEPTIDE', nterm_mods=nterm_mods, unknown_mods=unknown_mods, labile_mods=labile_mods,
+                                   internal_mods=internal_mods, isotope_mods=isotope_mods, static_mods=static_mods, charge=1,
+                                   charge_adducts=charge_adducts))
         probe('add_mods', {'mods': {'nterm': list(vals), 2: list(vals), 'intervals': [(1, 3, False, vals[0])]}},
               lambda mods: pt.add_mods('PEPTIDE', mods))
         probe('apply_static_mods', {'internal_mods': {'P': list(vals)}, 'nterm_mods': list(vals)},
